@@ -7,4 +7,6 @@ require (
 	github.com/biogo/hts v0.0.0
 )
 
+require github.com/ulikunitz/xz v0.5.10 // indirect
+
 replace github.com/biogo/hts => /repo
